@@ -1631,18 +1631,31 @@ chkpnt(void)
 {
 	int rc = 0;
 
+	uid_t again[countof(chkpnts)];
+	size_t nagain = 0U;
+
 	ECHS_NOTI_LOG("checkpoint");
 	if (ichkpnts >= countof(chkpnts)) {
-		rc = chkpnta();
+		if ((rc = chkpnta()) < 0) {
+			/* keep the marks, try again next time */
+			return rc;
+		}
 		goto fin;
 	}
 	/* otherwise just go through the list of checkpoint users */
 	for (size_t i = 0U; i < ichkpnts; i++) {
-		rc += chkpnt1(chkpnts[i].key);
+		if (chkpnt1(chkpnts[i].key) < 0) {
+			again[nagain++] = chkpnts[i].key;
+			rc--;
+		}
 	}
 fin:
-	/* all checkpoints cleared hopefully */
+	/* all checkpoints cleared, except for the ones that failed */
 	ichkpnts = 0U;
+	NEDTRIE_INIT(&chkpntr);
+	for (size_t i = 0U; i < nagain; i++) {
+		add_chkpnt(again[i]);
+	}
 	return rc;
 }
 
